@@ -9,6 +9,7 @@ import (
 	"fmt"
 	"go/ast"
 	"go/token"
+	"math/big"
 	"path/filepath"
 	"strconv"
 	"strings"
@@ -114,7 +115,27 @@ func init() {
 		if err != nil {
 			return "", err
 		}
-		b.WriteString("def atomText : List Nat := " + LeanBytes(text) + "\n\n")
+		b.WriteString("def atomText : List Nat := " + LeanBytes(text) + "\n")
+		fmt.Fprintf(&b, "def atomTextLen : Nat := %d\n\n", len(text))
+
+		// Little-endian positional encodings of the two big lists (base 256 / base 2^32) so that
+		// kernel evaluation can index them with GMP arithmetic; Proofs/C42 proves they equal the lists.
+		tn := new(big.Int)
+		for i := len(text) - 1; i >= 0; i-- {
+			tn.Lsh(tn, 8)
+			tn.Or(tn, big.NewInt(int64(text[i])))
+		}
+		b.WriteString("def atomTextNat : Nat := " + tn.String() + "\n\n")
+		bn := new(big.Int)
+		for i := n - 1; i >= 0; i-- {
+			v, ok := new(big.Int).SetString(tab[i], 10)
+			if !ok || v.Sign() < 0 || v.BitLen() > 32 {
+				return "", fmt.Errorf("table[%d] = %s is not a uint32", i, tab[i])
+			}
+			bn.Lsh(bn, 32)
+			bn.Or(bn, v)
+		}
+		b.WriteString("def tableNat : Nat := " + bn.String() + "\n\n")
 
 		// named constants: every const spec of (explicit) type Atom, in source order
 		tf, ok := p.Files["table.go"]
